@@ -67,7 +67,7 @@ def axis_mesh(kind):
 MESHES = {
     'line': [('L3', 'plain'), ('Lrev', 'plain'), ('L3', 'adaptive')],
     'tri': [('T2', 'plain'), ('TL6', 'plain'), ('Tfan4', 'vswap'), ('T2', 'adaptive'), ('TL6', 'mirrored')],
-    'quad': [('Q4par', 'plain'), ('Q4par', 'lorder'), ('Q4par', 'mirrored'), ('Q4gen', 'general'), ('Q2', 'general')],
+    'quad': [('Q4par', 'plain'), ('Q4par', 'lorder'), ('Q4par', 'mirrored'), ('Q4gen', 'general'), ('Q2', 'general'), ('Qmix', 'general')],
     'tet': [('K2', 'plain'), ('K3e', 'plain'), ('K2', 'adaptive'), ('K3e', 'mirrored')],
     'hex': [('Haxis', 'plain'), ('Haxis', 'mirrored'), ('H2', 'general')],
     'wedge': [('Waxis', 'plain')],
@@ -217,6 +217,10 @@ def patch(name, lab, ename, tier, seed, out):
                         x = xD
                     elif len(D) == 0:
                         x = solve(A, b)
+                    elif len(Dfac) >= 2 and len(Dsel) % 2 == 0:
+                        # the same Dirichlet set named as a dictionary of per-facet views (they overlap at shared vertices)
+                        Dd = {f'f{j}': basis.get_dofs(np.array([j], dtype=np.int32)) for j in Dfac}
+                        x = solve(*condense(A, b, x=xD, D=Dd))
                     else:
                         x = solve(*condense(A, b, x=xD, D=D))
                 except Exception as e:
